@@ -219,8 +219,8 @@ DRIVES = {
     "rel2": dict(comps=["A", "R", "S"], maxent=14, extra=dict(grid=15), quick=dict(count=160, len=250), thorough=dict(count=1200, len=400)),
     "obs": dict(comps=["A", "B", "R"], maxent=8, extra=dict(observers=5, obsp=120, grid=10), quick=dict(count=300, len=150), thorough=dict(count=2500, len=250)),
     "obs2": dict(comps=["A", "R", "S"], maxent=8, extra=dict(observers=6, obsp=150, grid=10), quick=dict(count=300, len=150), thorough=dict(count=2500, len=250)),
-    "lock": dict(comps=["A", "B", "R"], maxent=10, extra=dict(queries=6, observers=2, grid=15), quick=dict(count=300, len=200), thorough=dict(count=2500, len=300)),
-    "lock64": dict(comps=["A", "R"], maxent=6, extra=dict(queries=62), quick=dict(count=60, len=400), thorough=dict(count=400, len=600)),
+    "lock": dict(comps=["A", "B", "R"], maxent=10, extra=dict(queries=6, observers=2, grid=15, reglocked=True), quick=dict(count=300, len=200), thorough=dict(count=2500, len=300)),
+    "lock64": dict(comps=["A", "R"], maxent=6, extra=dict(queries=62, reglocked=True), quick=dict(count=60, len=400), thorough=dict(count=400, len=600)),
     "reset": dict(comps=["A", "B", "R"], maxent=10, extra=dict(observers=3, resetp=25, stats=True, resp=60), quick=dict(count=300, len=200), thorough=dict(count=2000, len=300)),
     "reset2": dict(comps=["A", "R", "S"], maxent=8, extra=dict(observers=3, resetp=40, queries=2, resp=60), quick=dict(count=200, len=200), thorough=dict(count=1500, len=300)),
     "arity": dict(comps=["A", "B", "C", "R", "S", "F1", "F2", "F3", "F4", "F5", "F6", "F7"], maxent=10,
